@@ -27,7 +27,9 @@ var (
 	tokAlt    = []string{"x", "--", "-a", "--aa", "-n", "-m", "-mn", "-na", "-ov", "--output=v", "--out", "-amo"}
 
 	tokFull = []string{"x", "v", "-", "--", "-a", "--aa", "-a=true", "-b", "-ab", "-ba", "-o", "-ov", "-o=v", "--out", "--out=v",
-		"-aov", "-ao", "-z", "--zz", "-az", "-o=", "--out=", "-z=v"}
+		"-aov", "-ao", "-z", "--zz", "-az", "-o=", "--out=", "-z=v",
+		// unambiguous prefixes of declared long names are NOT spellings of them
+		"--ou=v", "--a"}
 	tokMid  = []string{"x", "-", "--", "-a", "--aa", "-b", "-ab", "-o", "-ov", "--out=v", "-ao", "-z"}
 	tokTiny = []string{"x", "-", "--", "-a", "-b", "-ab", "-ov", "-z"}
 	// built-in value types: additionally values with surrounding blanks (must be bound byte for byte)
